@@ -602,7 +602,11 @@ Section TwoSides.
   Qed.
 
   (* -- under "different keys give different digests on at least one of the two
-        challenges", success is equivalent to holding the same key *)
+        challenges", success is equivalent to holding the same key.
+        SUPERSEDED (audit 2026-09-23: this hypothesis is the contrapositive of the
+        conclusion): Props/C18.v now quotes AuthKeyProofs.code_iff_same_normalised_key /
+        code_iff_same_key_literal, whose hypotheses are structural (key normalisation,
+        key-collision freeness).  Kept as a lemma; no longer quoted. *)
   Theorem iff_same_key : forall n k0 k kc ul uc,
       let kl := k0 :: k in
       let cl := ul MESSAGE_LENGTH in
@@ -754,7 +758,9 @@ Lemma code_empty_key_observation : forall mac ul uc n inc,
 Proof. intros. split; reflexivity. Qed.
 
 (* ------------------------------------------------------------------ *)
-(* Without the no-collision hypothesis "success IFF same key" is FALSE: a MAC
+(* (SUPERSEDED by AuthKeyProofs.code_iff_same_key_refuted_any_mac, which holds for EVERY
+   mac that normalises its key; this `exists mac` form is no longer quoted.)
+   Without the no-collision hypothesis "success IFF same key" is FALSE: a MAC
    that normalises its key the way HMAC does (zero-padding to a block; here a
    block of 4) makes the distinct keys [1;2;3] and [1;2;3;0] authenticate each
    other.  (For the real HMAC-MD5 the same happens with b'k' / b'k\0'; the
